@@ -102,6 +102,11 @@ EDITS = [
   "    if cur >= tgt:\n        # nothing to do, a similar or better progression happened earlier\n        return [current, []]\n\n    # dig out all intermediate states, skip current\n    passed = list()\n    for i in range(cur + 1,tgt):\n        passed.append(_pilot_state_inv[i])",
   "    if cur > tgt:\n        # nothing to do, a similar or better progression happened earlier\n        return [current, []]\n\n    # dig out all intermediate states, skip current\n    passed = list()\n    for i in range(cur + 1,tgt):\n        passed.append(_pilot_state_inv[i])",
   '_pilot_state_progress'),
+ ('cfg-schema-alias', 'C17', 'configs/resource_csc.json',
+  '            "batch"                   : {\n                "job_manager_endpoint": "fork://localhost/",\n                "filesystem_endpoint" : "file://localhost/"\n            },',
+  '            "batch"                   : "interactive",', 'csc.mahti'),
+ ('factory-key-gone', 'C17', 'agent/launch_method/base.py',
+  "            LM_NAME_SRUN          : Srun,\n", "", 'launch-method-SRUN-known'),
 ]
 
 
